@@ -664,33 +664,39 @@ def covariate_wrapped(rec):
             return out, sens
 
     def mk(real, part):
-        kind, d, nc = part
+        kind, d, nc, sel = part
         base = {'P': lambda: real.PooledModel(n_dim=d), 'G': lambda: real.GaussianModel(n_dim=d), 'L': lambda: real.LogNormalModel(n_dim=d),
                 'Ln': lambda: real.LogNormalModel(n_dim=d, centered=False), 'T': lambda: real.TruncatedGaussianModel(n_dim=d)}[kind.split(':')[-1]]()
-        return real.CovariatePopulationModel(base, real.LinearCovariateModel(n_cov=nc)) if kind.startswith('C:') else base
+        if not kind.startswith('C:'):
+            return base
+        m_ = real.CovariatePopulationModel(base, real.LinearCovariateModel(n_cov=nc))
+        if sel is not None:
+            m_.set_population_parameters([list(x_) for x_ in sel])          # only these (parameter, dimension) pairs depend on the covariates
+        return m_
 
     def reference(parts, n_ids, cov, lls, xv):
         """(value, psi) by hand from the published order"""
         hier = [p for p in parts if p[0].split(':')[-1] != 'P']
-        h = sum(d for _, d, _ in hier)
+        h = sum(p[1] for p in hier)
         bottom = np.asarray(xv[:n_ids * h], dtype=float).reshape(n_ids, h)
         top = list(xv[n_ids * h:])
-        D = sum(d for _, d, _ in parts)
+        D = sum(p[1] for p in parts)
         psi = np.empty((n_ids, D))
         dens = 0.0
         col = bcol = coff = 0
-        for kind, d, nc in parts:
+        for kind, d, nc, sel in parts:
             b = kind.split(':')[-1]
             n_p = 1 if b == 'P' else 2
             theta = np.array(top[:n_p * d], dtype=float).reshape(n_p, d)
             top = top[n_p * d:]
             var = np.repeat(theta[np.newaxis], n_ids, axis=0)
             if kind.startswith('C:'):
-                beta = np.array(top[:n_p * d * nc], dtype=float).reshape(n_p * d, nc)
-                top = top[n_p * d * nc:]
+                chosen = list(range(n_p * d)) if sel is None else sorted({a_ * d + b_ for a_, b_ in sel})
+                beta = np.array(top[:len(chosen) * nc], dtype=float).reshape(len(chosen), nc)
+                top = top[len(chosen) * nc:]
                 for i in range(n_ids):
-                    for s_ in range(n_p * d):
-                        var[i, s_ // d, s_ % d] += float(np.dot(cov[i, coff:coff + nc], beta[s_]))
+                    for j_, s_ in enumerate(chosen):
+                        var[i, s_ // d, s_ % d] += float(np.dot(cov[i, coff:coff + nc], beta[j_]))
                 coff += nc
             if b == 'P':
                 psi[:, col:col + d] = var[:, 0, :]
@@ -720,14 +726,18 @@ def covariate_wrapped(rec):
             cases.append(((('C:' + b, d, nc),), 3))
             cases.append(((('P', 1, 0), ('C:' + b, d, nc), ('G', 1, 0)), 3))
         cases.append(((('C:' + b, 1, 1), ('C:P', 1, 2)), 2))
+    # partial selections: only some (parameter, dimension) pairs depend on the covariates
+    cases += [((('C:P', 2, 1, ((0, 1),)),), 3), ((('C:P', 3, 1, ((0, 2), (0, 0))),), 3), ((('G', 1, 0), ('C:P', 2, 2, ((0, 1),))), 3), ((('C:L', 2, 1, ((1, 0),)),), 3),
+              ((('C:G', 2, 2, ((0, 1), (1, 0))), ('P', 1, 0)), 3), ((('C:Ln', 2, 1, ((0, 0), (1, 1))),), 2), ((('C:T', 2, 1, ((0, 1),)),), 2)]
 
     def one(case):
         parts, n_ids = case
-        if sum(d for _, d, _ in parts) < 2:
-            parts = parts + (('P', 1, 0),)
+        parts = tuple(tuple(p_) + (None,) * (4 - len(p_)) for p_ in parts)
+        if sum(p_[1] for p_ in parts) < 2:
+            parts = parts + (('P', 1, 0, None),)
         rng = np.random.default_rng(rec.seed + len(repr(case)))
-        D = sum(d for _, d, _ in parts)
-        ncov = sum(nc for k, _, nc in parts if k.startswith('C:'))
+        D = sum(p_[1] for p_ in parts)
+        ncov = sum(p_[2] for p_ in parts if p_[0].startswith('C:'))
         subs = [mk(real, p_) for p_ in parts]
         pop = subs[0] if len(subs) == 1 else real.ComposedPopulationModel(subs)
         lls = []
